@@ -27,14 +27,17 @@ type input struct {
 	Msg   *tls.VerifMsg `json:"msg,omitempty"`   // value case
 	Data  string        `json:"data,omitempty"`  // raw decoder input (hex)
 	Small int           `json:"small,omitempty"` // exhaustive small-body enumeration of this depth
+	Subst bool          `json:"subst,omitempty"` // Data is the base of a systematic single-byte substitution
 }
 
 func gen(c *vh.Ctx) {
 	nval := 20
 	nmut := 3
 	nrand := 25
+	nbase, maxbase := 3, 160
 	if c.Thorough {
-		nval, nmut, nrand = 150, 8, 400
+		nval, nmut, nrand = 60, 6, 150
+		nbase, maxbase = 8, 400
 	}
 	for k := 0; k < tls.VerifNumKinds; k++ {
 		ki := kinds[k]
@@ -43,10 +46,16 @@ func gen(c *vh.Ctx) {
 		}
 		// 1. generated values: encoding, all prefixes, mutations
 		vals := ki.gen(c, nval)
+		bases := 0
 		for _, v := range vals {
 			enc := valueCase(c, k, v.has, v.m, "gen")
 			if enc == nil {
 				continue
+			}
+			// systematic single-byte substitution on a few valid encodings of moderate size
+			if bases < nbase && len(enc) >= 8 && len(enc) <= maxbase && ki.valid(v.has, v.m) {
+				bases++
+				substCase(c, k, v.has, enc)
 			}
 			for i := 0; i < nmut; i++ {
 				mut := mutate(c, enc)
@@ -94,6 +103,10 @@ func replay(c *vh.Ctx, raw json.RawMessage) {
 		ki := kinds[in.Kind]
 		h, _ := enumSmall(in.Kind, in.Has, in.Small)
 		c.Case("xcase", vh.Pair(ki.ctor, vh.Bool(in.Has), vh.NI(int(ki.typ)), vh.Bool(ki.noHeader), vh.Nat(in.Small), vh.N(h)), in, "x")
+		return
+	}
+	if in.Subst {
+		substCase(c, in.Kind, in.Has, vh.UnHex(in.Data))
 		return
 	}
 	if in.Msg != nil {
@@ -231,6 +244,42 @@ func clip(b []byte) []byte {
 		return b[:96]
 	}
 	return b
+}
+
+// digest of one whole-input decode: see C30.digest_dec
+func digestDec(k int, has bool, in []byte, h uint64) uint64 {
+	m, ok := tls.VerifUnmarshal(k, has, in)
+	if !ok {
+		return vh.Mix(h, 0)
+	}
+	m.HasSignatureAlgorithm = has
+	e, eok := tls.VerifMarshal(k, m)
+	if !eok {
+		return vh.Mix(h, 2)
+	}
+	h = vh.Mix(h, 1)
+	for _, b := range e {
+		h = vh.Mix(h, uint64(b))
+	}
+	return h
+}
+
+// substCase: see C30.digest_subst (every position x 9 substituted values, whole-input decode)
+func substCase(c *vh.Ctx, k int, has bool, base []byte) {
+	ki := kinds[k]
+	var h uint64
+	buf := make([]byte, len(base))
+	for i := range base {
+		o := base[i]
+		for _, v := range []byte{0, 1, 2, 3, 127, 128, 255, o + 1, o + 255} {
+			copy(buf, base)
+			buf[i] = v
+			h = digestDec(k, has, buf, h)
+		}
+	}
+	c.Stat("substituted_inputs", 9*len(base))
+	c.Case("ycase", vh.Pair(ki.ctor, vh.Bool(has), hb(base), vh.N(h)), input{Kind: k, Has: has, Data: vh.Hex(base), Subst: true},
+		fmt.Sprintf("y%d|%x", k, clip(base)))
 }
 
 // enumSmall: see C30.enum_small (same traversal, same checksum)
